@@ -186,6 +186,14 @@ def run_flags_impl(e):
 def flags_line(e):
     return 'msg flags ' + enc_entry(e)
 
+def impl_repr(colon, msgid, ctxt):
+    from lib.check.msgrepr import message_repr
+    o = Obj(); o.msgid, o.msgctxt = msgid, ctxt
+    try:
+        return 'ok ' + hs(str(message_repr(o, template='{}:' if colon else '{}')))
+    except Exception as exc:
+        return 'err ' + type(exc).__name__
+
 def impl_unusual(s):
     from lib import check
     try:
